@@ -1068,6 +1068,9 @@ pub broadcast proof fn lemma_seq_one_contains<A>(x: A, y: A)
 {
     if x == y { assert(seq![x][0] == y); }
 }
+// "t is the type of the one string literal lit" (named, so that a caller of `string_const` can speak about the literal
+// it passed without a name for the temporary)
+pub open spec fn str_lit_type(t: SemType, lit: StringLitOrFormat) -> bool { forall|v: Val| #[trigger] mem(t, v) == (v == Val::Str(lit)) }
 // a type made of a single proper subtype and no full tag
 pub broadcast proof fn lemma_mem_single(t: SemType, v: Val)
     requires t.all == 0, t.subtype_data@.len() == 1
